@@ -2,6 +2,7 @@
   TwProofs.C13 — errors name the line of the offending construct.
 -/
 import TwProofs.Lemmas.LexSpan
+import TwProofs.Lemmas.ErrLinesStmt
 import TwModel
 
 namespace Tw.C13
@@ -75,6 +76,57 @@ theorem string_error_has_no_path (custom : List ((VType × Bytes) × Nat)) (src 
     · cases h
     · cases h
 
+
+/-! ### in general: the evaluator never invents a line -/
+
+/-- **every error raised inside an expression carries the line of a token of that expression**
+    (any fuel, context, environment): identifier, operator, index, property, call — the line comes
+    from the tree, never from a default or from another construct -/
+theorem expression_errors_name_a_token_of_the_expression (fuel : Nat) (c : Ctx) (env : Env) (e : Expr)
+    (code : String) (line : Nat) (args : List Bytes) (h : evalExpr fuel c env e = .err code line args) :
+    line ∈ e.lines :=
+  (el_expr fuel).1 c env e code line args h
+
+/-- **every error raised while statements are evaluated carries the line of a token of those
+    statements or of what the loader attached to the page** (layout, inserts, component files) -/
+theorem render_errors_name_a_token_of_the_loaded_files (fuel : Nat) (c : Ctx) (env : Env) (ss : List Stmt) (acc : Bytes)
+    (code : String) (line : Nat) (args : List Bytes) (h : evalProg fuel c env ss acc = .err code line args) :
+    line ∈ Stmt.linesL ss ++ c.lines :=
+  (calleesAt_el fuel).prog c env ss acc code line args h
+
+/-- the string API: a render error (the template parsed, the data converted) names a token of the
+    parsed template -/
+theorem string_render_error_names_a_token_of_the_template (custom : List ((VType × Bytes) × Nat)) (src : Bytes)
+    (data : List (Bytes × GoVal)) (prog : Program) (env : Env) (f : Fail)
+    (hp : parseSource src = .ok prog) (hd : envFromMap data = .ok env)
+    (h : evaluateStringPure custom src data = .fail f) : f.line ∈ Stmt.linesL prog.stmts := by
+  unfold evaluateStringPure envOrFail at h
+  simp only [hp, hd] at h
+  unfold resToOut at h
+  split at h
+  · cases h
+  · rename_i code line args hr
+    cases h
+    have := render_errors_name_a_token_of_the_loaded_files _ _ _ _ _ _ _ _ hr
+    simpa [Ctx.lines, Stmt.linesO, failOf] using this
+  · cases h
+  · cases h
+
+/-- a Template render: the line is one of the page's, its layout's, its inserts' or its components' -/
+theorem template_render_error_names_a_token_of_the_page (w : World) (t : Template) (name : Bytes) (data : List (Bytes × GoVal))
+    (pg : Page) (env : Env) (f : Fail) (hpg : mapGet t name = some pg) (hd : envFromMap data = .ok env)
+    (h : tplString w t name data = .fail f) : f.line ∈ Stmt.linesL pg.stmts ++ pg.ctx.lines := by
+  unfold tplString envOrFail at h
+  simp only [hd, hpg] at h
+  unfold resToOut at h
+  split at h
+  · cases h
+  · rename_i code line args hr
+    cases h
+    have := render_errors_name_a_token_of_the_loaded_files _ _ _ _ _ _ _ _ hr
+    simpa [Ctx.lines, failOf] using this
+  · cases h
+  · cases h
 
 example : (match evaluateStringPure [] (b "line1\n{{ \"a\nb\" }}\n{{-- c\n --}}{{ nosuch }}") [] with
     | .fail f => f.line == 5 | _ => false) = true := by decide
